@@ -3,7 +3,7 @@
 import json, os, sys
 sys.path.insert(0, os.path.dirname(os.path.dirname(os.path.abspath(__file__))))
 from sa import facts as F, names
-fx = F.get_facts("/repo", "dev", quiet=True, normalise=False)
+fx = F.get_facts("/repo", "dev", quiet=True, normalise="no-names")   # signatures are taken after the desugaring pre-passes
 t = names.signatures(fx)
 with open(names.TABLE, "w") as fh:
     json.dump(t, fh, indent=0, sort_keys=True)
